@@ -364,8 +364,56 @@ class RunResult:
         self.fasta_exists = False
 
 
+STAGES = ('create_variant_graph', 'fit_into_codons', 'translate', 'create_cleavage_graph',
+          'call_variant_peptides')
+
+
+@contextlib.contextmanager
+def stage_fault(spec):
+    """in-process fault injection INSIDE a unit: `spec` = (graph id, stage, n) makes the n-th call
+    of that stage method on a graph with that id raise (threads=1 only; no change to /repo)"""
+    if not spec:
+        yield
+        return
+    _imports()
+    from moPepGen.svgraph.ThreeFrameTVG import ThreeFrameTVG
+    from moPepGen.svgraph.PeptideVariantGraph import PeptideVariantGraph
+    gid, stage, nth = spec
+    canonical = stage.startswith('canonical:')      # the variant-free graph call_canonical_peptides builds
+    if canonical:
+        stage = stage.split(':', 1)[1]
+    cls = PeptideVariantGraph if stage in ('create_cleavage_graph', 'call_variant_peptides') else ThreeFrameTVG
+    orig = cls.__dict__[stage]
+    orig_cvg = ThreeFrameTVG.__dict__['create_variant_graph']
+    # create_variant_graph / fit_into_codons never run on the variant-free canonical graph; translate
+    # and the peptide-graph stages do, so they are counted from the first VARIANT graph of this id on
+    needs_arming = not canonical and stage not in ('create_variant_graph', 'fit_into_codons')
+    state = {'n': 0, 'armed': not needs_arming}
+
+    def arm(self, *a, **k):
+        # calls on the peptide graph are counted from the first VARIANT graph of this id on
+        if getattr(self, 'id', None) == gid:
+            state['armed'] = True
+        return orig_cvg(self, *a, **k)
+
+    def wrapped(self, *a, **k):
+        if getattr(self, 'id', None) == gid and state['armed']:
+            state['n'] += 1
+            if state['n'] == nth:
+                raise RuntimeError(f'injected fault in {stage} (call {nth}) of {gid}')
+        return orig(self, *a, **k)
+    setattr(cls, stage, wrapped)
+    if needs_arming:
+        ThreeFrameTVG.create_variant_graph = arm
+    try:
+        yield
+    finally:
+        setattr(cls, stage, orig)
+        ThreeFrameTVG.create_variant_graph = orig_cvg
+
+
 def run_call_variant(case: Case, tag: str = 'out', fail: str = '', timeouts: str = '',
-                     **kw) -> RunResult:
+                     stage_fail=None, **kw) -> RunResult:
     """Run the real callVariant in-process with hooks on; returns outputs + trace."""
     _imports()
     from moPepGen.cli.call_variant_peptide import call_variant_peptide
@@ -389,7 +437,8 @@ def run_call_variant(case: Case, tag: str = 'out', fail: str = '', timeouts: str
             lg.addHandler(handler)
             lg.setLevel(logging.INFO)
             try:
-                call_variant_peptide(args)
+                with stage_fault(stage_fail):
+                    call_variant_peptide(args)
             except BaseException as e:   # noqa  includes SystemExit
                 if isinstance(e, KeyboardInterrupt):
                     raise
